@@ -235,6 +235,42 @@ def design_search_stream(ctx, phys, n):
         ctx.count("design-search:months-conserved", ok)
 
 
+def multiyear_stream(ctx, phys):
+    """HybridLoad built directly with multi-year `years` lists, with and without a leap year among
+    them.  Known finding `multi-year-leap-calendar`: first_month_hour / last_month_hour count ALL
+    preceding months with the calendar of the year of the queried month (years[(month-1)//12]), so with a
+    leap year in the list the month ends of the other years are 24 h off and months at a year boundary
+    get an averaging period that does not match their breakpoints."""
+    jobs = H.multiyear_jobs(ctx.rng, phys)
+    outs = core.pool_map(H.run_multiyear, jobs)
+    for a, o in zip(jobs, outs):
+        years = a["years"]
+        n = 12 * len(years)
+        label = f"HybridLoad(years={years}, {n} months, one profile per load year)"
+        replay = {"builder": "hybridlib.run_multiyear", "args": {k: v for k, v in a.items() if k != "phys"}, "phys": a["phys"]}
+        ctx.count("multi-year:" + ("with-leap-year" if H.has_leap(years) else "ordinary-years"))
+        if "raise" in o:
+            ctx.case(("multi-year", tuple(years), a["seed"]), False)
+            ctx.finding("multi-year-raise", f"{label} raised {o['raise']}", replay)
+            continue
+        ctx.case(("multi-year", tuple(years), a["seed"]), True)
+        snap = o["snap"]
+        raw = H.multiyear_profile(a["seed"], years)
+        ms = H.month_sums(raw, years, n)
+        if H.has_leap(years):
+            ok, fails = classify_arrays(snap["load"], snap["hour"], ms, H.month_table(snap["monthly"]), 1, n, year=years)
+            if fails:
+                tot = sum(Fraction(x) * (Fraction(h1) - Fraction(h0)) for x, h0, h1 in zip(snap["load"][1:], snap["hour"][:-1], snap["hour"][1:]))
+                want = sum(m["net"] for m in ms)
+                ctx.finding("multi-year-leap-calendar", f"{label}: {fails[0][0]} ({fails[0][4] if fails[0][1] is None else 'month ' + str(fails[0][1])}); the axis ends at hour "
+                            f"{snap['hour'][-1]} (calendar: {H.oracle_month_end(n, years)}), the sequence integrates to {float(tot):.3f} kWh, the input's net load is {float(want):.3f} kWh", replay)
+            else:
+                ctx.count("multi-year:leap-calendar-conserved", ok)
+            continue
+        ok, _ = _object_predicates(ctx, label, snap, ms, 1, n, years, replay, "multi-year-")
+        ctx.count("multi-year:months-conserved", ok)
+
+
 def run(ctx: core.Ctx):
     ctx.rule = ("case = (hourly profile, borehole/ground parameter set, horizon); profiles of 16 kinds (mixed, heating-only, cooling-only, "
                 "months with zero load, one-sided months, peaks forced on the first/last day, both peaks on the same day, peak in the last hour "
@@ -325,6 +361,7 @@ def run(ctx: core.Ctx):
     # ------------------------------------------------------------------ the glue: GHE.__init__/simulate/size and design searches
     ghe_history_stream(ctx, physs[0], 8 if quick else 40)
     design_search_stream(ctx, physs[0], 7 if quick else 27)
+    multiyear_stream(ctx, physs[0])
 
     # ------------------------------------------------------------------ arbitrary monthly arrays
     arr = H.explore_process_only(ctx, 300 if quick else 6000)
